@@ -1,8 +1,14 @@
 #!/bin/bash
-# setup.sh -- builds the framework from files on disk only (offline).
+# setup.sh -- builds the framework from files on disk only (offline) and warms the build cache
+# (plain, instrumented-overlay and -race builds) so that the checks start quickly.
 set -e
 cd "$(dirname "$0")"
 export GOFLAGS=-mod=mod GOPROXY=off GOSUMDB=off GOTOOLCHAIN=local
 mkdir -p bin evidence replays
 go build -o bin/vcheck ./cmd/vcheck
+go run ./cmd/vinstr -src /repo -out bin/overlay
+go build -tags verif -overlay bin/overlay/overlay.json -o bin/vcheck-shadow ./cmd/vcheck
+go build -race -tags verif -overlay bin/overlay/overlay.json -o bin/vcheck-race ./cmd/vcheck
+# conformance of the instrumentation: the repository's own tests must pass inside the overlay build
+(cd /repo && go test -tags verif -overlay /verif/bin/overlay/overlay.json -vet=off -count=1 ./... > /verif/bin/overlay-selftest.log 2>&1) || { echo "overlay conformance run failed"; tail -5 bin/overlay-selftest.log; exit 1; }
 echo "setup ok"
